@@ -284,3 +284,40 @@ Proof.
     + destruct (mcu_body_more _ _ _ _ _ _ H) as [-> ->].
       split; [lia|]. intros e. simpl skipn. now rewrite shift_0'.
 Qed.
+
+(* ------------------------------------------------------------ the fast/slow switch of decode_mcu *)
+(* when the fast path is not eligible, or abandons the MCU (marker seen), decode_mcu is exactly the slow
+   unit: nothing has been committed by the fast attempt *)
+Theorem switch_falls_back : forall bls s p,
+  usefast bls s p && negb (h_insuf s) = false \/ fast_mcu bls s p = None ->
+  mcu_unit_sw bls s p = mcu_unit bls s p.
+Proof.
+  intros bls s p H. unfold mcu_unit_sw. destruct (h_left s) eqn:L; [unfold mcu_unit; now rewrite L|].
+  destruct H as [H|H]; [now rewrite H|].
+  destruct (usefast bls s p && negb (h_insuf s)); [now rewrite H | reflexivity].
+Qed.
+
+(* the fast path never suspends and never fails: it either completes the MCU or hands over to the slow path *)
+Theorem switch_shape : forall bls s p,
+  mcu_unit_sw bls s p = mcu_unit bls s p \/
+  exists last blocks b, fast_mcu bls s p = Some (last, blocks, b) /\ f_mark b = 0%Z /\
+    mcu_unit_sw bls s p =
+    Done (commit_mcu s {| gb := f_gb b; bl := f_bl b; rest := f_rest b; um := 0; insuf := false; wn := h_warn s |} last blocks)
+         (length p - length (f_rest b)) 0.
+Proof.
+  intros bls s p. unfold mcu_unit_sw. destruct (h_left s) eqn:L; [left; unfold mcu_unit; now rewrite L|].
+  destruct (usefast bls s p && negb (h_insuf s)); [|now left].
+  destruct (fast_mcu bls s p) as [[[last blocks] b]|] eqn:F; [|now left].
+  right. exists last, blocks, b. repeat split; auto.
+  unfold fast_mcu in F. destruct (fdecode_blocks _ _ _ _) as [[r b']|]; [|discriminate].
+  destruct (f_mark b' =? 0)%Z eqn:M; [|discriminate]. inversion F; subst. now apply Z.eqb_eq.
+Qed.
+
+(* the switch is only taken with BUFSIZE bytes per block in the buffer and outside restart intervals *)
+Theorem usefast_needs_buffer : forall bls s p, usefast bls s p = true ->
+  FAST_BUFSIZE * length bls <= length p /\ h_ri s = 0%Z /\ h_um s = 0%Z.
+Proof.
+  intros bls s p H. unfold usefast in H. apply andb_true_iff in H. destruct H as [H H3].
+  apply andb_true_iff in H. destruct H as [H1 H2].
+  apply Z.eqb_eq in H1. apply Z.eqb_eq in H3. apply Nat.leb_le in H2. auto.
+Qed.
